@@ -277,6 +277,12 @@ def r2_entry_point_status(ctx: Ctx) -> None:
         ok = len(defs) >= 1 and all(d.startswith("program.assemble_as_patch(") or d.startswith("program.assemble(") for d in defs)
         if not ok and dnodes and all(isinstance(d, ast.Call) and (isinstance(d.func, (ast.Name, ast.Subscript, ast.Call)) and (call_name(d) or "") not in ("int", "bool")) for d in dnodes):
             raise AnalysisError(f"cli_main: the exit status comes from `{defs[0][:50]}`, a call the analysis does not resolve to an entry point; not decided")
+    elif len(exits) > 1 and all(len(e.args) == 1 for e in exits) and any(isinstance(e.args[0], ast.Constant) for e in exits):
+        # several exits, some with a literal status (a conditional such as `1 if code > 0 else 0` written out): the assembler's own status
+        # (-1 for a failed assembly) does not reach the caller as it is
+        ctx.fail("cli_main:exit-status", f"the process exits with literal statuses {[unparse(e.args[0]) for e in exits]} chosen from the assembler's status, not with that status itself: "
+                 "a failure status the literal test does not cover leaves as success", fact=True)
+        ok = True
     elif len(exits) != 1:
         raise AnalysisError(f"cli_main: {len(exits)} sys.exit calls; not modelled")
     ctx.check(ok, "cli_main:exit-status", "the process exits with the status returned by the assembler entry point")
